@@ -229,6 +229,12 @@ class Lab(object):
             return text.upper()
         self.parse_color = parse_color
 
+        @parse.with_pattern(r"red|green|blue")
+        def parse_color_v1(text):           # the same type name registered again with another converter (another step module)
+            return "c:" + text
+        self.parse_color_v1 = parse_color_v1
+        self.color_version = 0
+
         @parse.with_pattern(r"[-+]?\d+")
         def parse_number(text):
             return int(text)
@@ -263,7 +269,8 @@ class Lab(object):
         M.use_step_matcher("parse")
         for cls in (M.ParseMatcher, M.CFParseMatcher):
             cls.clear_registered_types()
-        M.ParseMatcher.register_type(Color=self.parse_color, Number=self.parse_number)
+        self.color_version = (getattr(self, "_nreg", 0) // 5) % 2
+        M.ParseMatcher.register_type(Color=(self.parse_color_v1 if self.color_version else self.parse_color), Number=self.parse_number)
         self._nreg = getattr(self, "_nreg", 0) + 1
         if self._nreg % 2 == 0 and getattr(self, "_used_reg", None) is not None:
             # every second history runs on a registry that was used before and emptied with the public clear(): it has to
@@ -311,9 +318,21 @@ class FakeContext(object):
 # ---------------------------------------------------------------------------
 def check_pattern(lab, mon, rng, kind, sample=False):
     toks = gen_pattern(rng, kind)
+    memo = lab.__dict__.setdefault("_custom_patterns", {})
+    if kind in ("parse", "cfparse"):
+        if any(t[0] == "custom" for t in toks):
+            memo.setdefault(kind, []).append(toks)
+            del memo[kind][:-8]
+        elif memo.get(kind) and rng.random() < 0.3:
+            # the very same pattern TEXT again, a few registrations (and possibly a re-registration of its custom type) later
+            toks = rng.choice(memo[kind])
+            mon.count("patterns_with_custom_type_seen_again")
     ptext = pattern_text(toks, kind)
     text, fields = instance(toks, rng)
     reg = lab.fresh_registry()
+    if lab.color_version == 1:
+        # the Color type is registered with its second converter at the moment: that is what the step function must receive
+        fields = [((f[0], f[1], "c:" + f[1]) + tuple(f[3:])) if (f[5] in ("custom", "optional") and f[1] in COLORS) else f for f in fields]
     fn = lab.make_fn("f")
     case = {"kind": kind, "pattern": ptext, "text": text, "tokens": toks}
     nfields = len(fields)
@@ -535,37 +554,43 @@ def module_loading_random(lab, mon, rng):
             choice = rng.choice([None, None, "re", "parse", "cfparse", "re0"])
             effective = choice or default
             word = "w%d%s" % (i, rng.choice("abc"))
+            deco = rng.choice(["step", "given", "when", "then", "Given", "When", "Then", "Step"])
             if effective in ("re", "re0"):
                 pattern, value = "%s (?P<n>\\d+) \\(x\\)" % word, "7%d" % i
             else:
                 pattern, value = "%s {n:d} (x)" % word, 70 + i
             text = "%s 7%d (x)" % (word, i)
-            src = "from behave import step, use_step_matcher\n"
+            src = "from behave import %s, use_step_matcher\n" % deco
             if choice:
                 src += "use_step_matcher(%r)\n" % choice
-            src += "@step(%r)\ndef s%d(context, n):\n    context.got = (%r, n)\n" % (pattern.replace("\\\\", "\\"), i, word)
+            src += "@%s(%r)\ndef s%d(context, n):\n    context.got = (%r, n)\n" % (deco, pattern.replace("\\\\", "\\"), i, word)
             with open(os.path.join(root, "m%02d_%s.py" % (i, word)), "w") as fh:
                 fh.write(src)
-            plan.append((choice, effective, word))
-            want[text] = (word, value)
+            plan.append((choice, effective, word, deco))
+            # a definition made with @given / @Given answers Given steps only (likewise when/then); @step / @Step answers all
+            for st_type in ("given", "when", "then"):
+                binds = deco.lower() in ("step", st_type)
+                want[(st_type, text)] = (word, value) if binds else None
         step_registry.registry.clear()
         matchers.use_default_step_matcher(default)
         runner_util.load_step_modules([root])
         reg = step_registry.registry
         results = {}
-        for text in want:
-            m = reg.find_match(FakeStep("given", text))
+        for (st_type, text) in want:
+            m = reg.find_match(FakeStep(st_type, text))
             ctx = FakeContext()
             if m is not None and not isinstance(m, matchers.MatchWithError):
                 m.run(ctx)
-                results[text] = getattr(ctx, "got", None)
+                results[(st_type, text)] = getattr(ctx, "got", None)
             else:
-                results[text] = None
+                results[(st_type, text)] = None
+        for d in set(p[3] for p in plan):
+            mon.seen("decorator_used", d)
         mon.case(("modules", default, tuple(p[0] for p in plan)), True)
         mon.seen("module_default", default)
         mon.check("modules.default_matcher_reset", results == want,
-                  lambda: dict(default=default, modules=[list(p) for p in plan], got={k: repr(v) for k, v in results.items()},
-                               want={k: repr(v) for k, v in want.items()}))
+                  lambda: dict(default=default, modules=[list(p) for p in plan],
+                               differences={"%s %s" % k: [repr(results.get(k)), repr(v)] for k, v in want.items() if results.get(k) != v}))
         cur = matchers.get_step_matcher_factory().current_matcher
         mon.check("modules.matcher_after_loading_is_default", cur is matchers.get_step_matcher_factory().step_matcher_class_mapping[default],
                   lambda: dict(current=repr(cur), default=default))
